@@ -1,6 +1,64 @@
 """C07 — quadtree queries = linear scan: Lean model `Model/QuadTree.lean` (generic over the rectangle operations,
 run at Geom.Rect Int and Geom.Rect Rat), theorems `Props/C07.lean` resting on C18's rectangle laws."""
 
+import json
+from concurrent.futures import ThreadPoolExecutor
+
+
+def _oracle(ctx, area, n, label):
+    """Like ctx.impl_oracle, but the hand-written corpus lines of the area run first (and a replay of this area is
+    re-run)."""
+    if "harness" not in ctx.harness_bin:
+        return
+    if ctx.replay:
+        rep = json.load(open(ctx.replay))
+        if rep.get("area") != area:
+            return
+        outs = ctx.run_impl(area, rep["ops"]) or []
+        ctx.evals += len(rep["ops"])
+        for l, o in zip(rep["ops"], outs):
+            print("replay: %s -> %s" % (l[:120], o[:300]))
+            if not o.startswith("ok"):
+                ctx.violations.append({"kind": "impl-oracle", "what": "replay still fails: " + o[:200],
+                                       "replay": ctx.replay, "concrete": True})
+        return
+    total = n[ctx.tier] if isinstance(n, dict) else n
+    lines = ctx.corpus(area) + ctx.gen(area, ctx.seed * 7919 + 17, total)
+    k = 14
+    chunks = [lines[i::k] for i in range(k)]
+    with ThreadPoolExecutor(max_workers=k) as ex:
+        res = list(ex.map(lambda c: ctx.run_impl(area, c) if c else [], chunks))
+    if any(r is None for r in res):
+        return
+    lines = [l for c in chunks for l in c]
+    outs = [o for r in res for o in r]
+    ctx.rules.append("area %s (%s): implementation-side oracle, no Lean model; one line = one whole history; counted "
+                     "separately (oracle_%s = histories, oracle_%s_checks = query comparisons)" % (area, label, area, area))
+    bad = 0
+    key = "oracle_" + area
+    for l, o in zip(lines, outs):
+        ctx.extra[key] = ctx.extra.get(key, 0) + 1
+        if o.startswith("ok"):
+            try:
+                ctx.extra[key + "_checks"] = ctx.extra.get(key + "_checks", 0) + int(o.split()[1])
+            except (IndexError, ValueError):
+                pass
+            if len(ctx.samples) < 16 and ctx.extra[key] % 2000 == 1:
+                ctx.samples.append({"area": area, "op": l[:200], "oracle": o[:200]})
+            continue
+        if o == "skipped-after-crash":
+            continue
+        known = ctx._known_match(area, l, [l])
+        if known:
+            ctx.known_hits.append(known)
+            continue
+        bad += 1
+        if bad <= 3:
+            rep = {"property": ctx.id, "kind": "impl-oracle", "area": area, "harness": "harness", "ops": [l],
+                   "impl_outputs": [o], "concrete_failing_input": True, "note": label}
+            ctx.violations.append({"kind": "impl-oracle", "what": "%s: %s on `%s`" % (area, o[:300], l[:200]),
+                                   "replay": ctx._write_replay(rep), "concrete": True})
+
 
 def run(ctx):
     ctx.modelled += [
@@ -15,6 +73,20 @@ def run(ctx):
         "the sixteen query methods are instances of two generic traversals (Node.find / Node.any) with the pruning "
         "test and the item test of the respective Go function",
     ]
+    ctx.assumptions += [
+        "the Lean model computes in exact arithmetic (Int, Rat): its theorems cover int coordinates and every float64 "
+        "history on which the unions/halvings/sums of the quadtree are exact; they do NOT cover float rounding (in "
+        "exact arithmetic the guard of Reorganize is always true, C07.reorganize_guard_exact, whereas a rounded union "
+        "can leave a node sticking out of the root by an ulp). The evidence for the 'floating-point coordinates "
+        "(whole or fractional)' clause under rounding is the implementation-side oracle area `floatscan`: histories "
+        "over non-dyadic float64 rectangles, after every mutation Size/All and all 16 queries are compared with a "
+        "linear scan using the library's own geom predicates on the same float values, probed at and one ulp around "
+        "the right/bottom edges of the stored rectangles and of their union",
+        "floatscan domain: |coordinates| <= about 1e6 and sizes >= 1e-3 or <= 0, i.e. no rectangle whose positive "
+        "width/height is absorbed by rounding (fl(X+Width) == X). For such rectangles geom itself is inconsistent "
+        "(r.Contains(r) is true, r.Intersects(r) is false) and ContainsRect/ContainedByRect queries prune them away; "
+        "reproducer kept in corpus/C07/pending.floatscan-absorbed-width.ops (not run), reported to the coordinator",
+    ]
     ctx.lean(props=["Props.C07"], drivers=["drv_c07"])
     ctx.harness("./cmd/c07")
     ctx.diff(area="quadtree", driver="drv_c07", n={"quick": 200000, "thorough": 3000000}, stateful=True,
@@ -22,3 +94,5 @@ def run(ctx):
              tagger=lambda l, o: l.split()[0] if not l.startswith("reset") else "reset " + " ".join(l.split()[1:]),
              theorem="C07.abs_run / size_run / find_eq_filter / bool_iff_find_nonempty (model = linear scan); "
                      "impl != model on this history")
+    _oracle(ctx, "floatscan", {"quick": 8000, "thorough": 300000},
+            "quadtree vs linear scan with the library's geom predicates on rounding float64 coordinates")
